@@ -39,7 +39,7 @@ func reachesFibUpdate(in ssa.Instruction) bool {
 
 // C19 — Routes installed by the routing daemon mirror its tables (narrow claim).
 func C19(c *core.Ctx) {
-	c.Explain = "Narrow claim. The correctness of the incremental differ over all histories, and the equality of the replayed prefix log with the announced set, are behavioural and NOT decided. Decided structural necessary conditions: (R19.1) every site that changes an input of the installer triggers it: on the edge asserting that the RIB changed (ribUpdate, checkDeadNeighbors), that the prefix table changed (processPrefixData, Apply == true) or that a neighbour's face changed (advertSyncOnInterest) a call or goroutine of Router.fibUpdate follows on every path; (R19.2) fibUpdate brackets the rebuild: UnmarkAll precedes every UpdateH/MarkH and RemoveUnmarked follows them on all exits; it skips this router's own entry and takes next hops from the RIB for each router and for each prefix that router announces; UpdateH issues 'unregister' only for entries whose cost is ≥ infinity and 'register' only when the cost differs from the previously installed one; (R19.3) PrefixTable.Apply processes reset, then adds, then removes (SPEC: 'processed strictly in order'), and publishOp increments the sequence number before naming the Data it publishes."
+	c.Explain = "Narrow claim. The correctness of the incremental differ over all histories, and the equality of the replayed prefix log with the announced set, are behavioural and NOT decided. Decided structural necessary conditions: (R19.1) every site that changes an input of the installer triggers it: on the edge asserting that the RIB changed (ribUpdate, checkDeadNeighbors), that the prefix table changed (processPrefixData, Apply == true) or that a neighbour's face changed (advertSyncOnInterest) a call or goroutine of Router.fibUpdate follows on every path; (R19.2) fibUpdate brackets the rebuild: UnmarkAll precedes every UpdateH/MarkH and RemoveUnmarked follows them on all exits; it skips this router's own entry and takes next hops from the RIB for each router and for each prefix that router announces; UpdateH issues 'unregister' only for entries whose cost is ≥ infinity and 'register' only when the cost differs from the previously installed one; (R19.3) PrefixTable.Apply processes reset, then adds, then removes (SPEC: 'processed strictly in order'), and publishOp increments the sequence number before naming the Data it publishes; (R19.15) the same-face search of UpdateH's merge runs over the list the round appends to, not over a slice header fixed before the loop."
 	c.RuleText = "instances: dirty-flag edges of the four trigger sites, the mark/sweep bracket of fibUpdate, the two command sites of UpdateH, the three loops of Apply. Non-trivial = has a branch edge or path to decide."
 	p := c.P
 	defer c19FaceChangeIsDirty(c)
